@@ -99,6 +99,43 @@ MUTANTS = [
      "                ess = effective_sample_size(samples.log_weights(0.5 * (beta + samples.beta)))\n"),
     ("c18-resume-dup", ["C18"], S + "samplers/smc/base.py",
      "        if store_sample_history and not resumed:", "        if store_sample_history:"),
+    # ---- C12
+    ("c12-no-resize", ["C12"], S + "utils.py",
+     "    elif bdata.size != target[dsetname].shape[0]:\n        target[dsetname].resize((bdata.size,))\n", "    elif bdata.size > target[dsetname].shape[0]:\n        target[dsetname].resize((bdata.size,))\n"),
+    ("c12-cadence-off-by-one", ["C12"], S + "samplers/smc/base.py",
+     "                and iterations % checkpoint_every == 0", "                and iterations % checkpoint_every == 1 % checkpoint_every"),
+    ("c12-no-final-checkpoint", ["C12"], S + "samplers/smc/base.py",
+     "        maybe_checkpoint(force=True)\n", "        maybe_checkpoint(force=False)\n"),
+    ("c12-config-after-sampling", ["C12"], S + "aspire.py",
+     "            with AspireFile(checkpoint_path, \"a\") as h5_file:\n                if checkpoint_save_config:\n                    if \"aspire_config\" in h5_file:\n                        del h5_file[\"aspire_config\"]\n                    self.save_config(\n                        h5_file,\n                        include_sampler_config=True,\n                        include_sample_calls=False,\n                    )\n                    saved_config = True",
+     "            with AspireFile(checkpoint_path, \"a\") as h5_file:\n                if checkpoint_save_config and False:\n                    if \"aspire_config\" in h5_file:\n                        del h5_file[\"aspire_config\"]\n                    self.save_config(\n                        h5_file,\n                        include_sampler_config=True,\n                        include_sample_calls=False,\n                    )\n                    saved_config = True"),
+    ("c12-flow-after-sampling", ["C12"], S + "aspire.py",
+     "                    and \"flow\" not in h5_file\n                ):\n                    self.save_flow(h5_file)\n                    saved_flow = True",
+     "                    and \"flow\" not in h5_file\n                    and False\n                ):\n                    self.save_flow(h5_file)\n                    saved_flow = True"),
+    ("c12-stale-sampler-type", ["C12", "C14"], S + "aspire.py",
+     "        self._last_sampler_type = sampler\n        # Auto-checkpoint", "        # Auto-checkpoint"),
+    ("c12-checkpoint-every-ignored-in-auto", ["C12"], S + "aspire.py",
+     "            checkpoint_every = defaults[\"every\"]\n            checkpoint_save_config = defaults[\"save_config\"]\n        saved_flow",
+     "            checkpoint_save_config = defaults[\"save_config\"]\n        saved_flow"),
+    # ---- C11
+    ("c11-rng-not-restored", ["C11"], S + "samplers/smc/base.py",
+     "        if rng_state is not None and hasattr(self.rng, \"bit_generator\"):\n            self.rng.bit_generator.state = rng_state\n", ""),
+    ("c11-iteration-key-typo", ["C11"], S + "samplers/smc/base.py",
+     "        iteration = state.get(\"iteration\", 0)\n", "        iteration = state.get(\"iterations\", 0)\n"),
+    ("c11-checkpoint-before-mutate", ["C11"], S + "samplers/smc/base.py",
+     "                samples = self.mutate(samples, beta)\n                if store_sample_history:\n                    self.history.sample_history.append(samples)\n                maybe_checkpoint()",
+     "                maybe_checkpoint()\n                samples = self.mutate(samples, beta)\n                if store_sample_history:\n                    self.history.sample_history.append(samples)"),
+    ("c11-history-not-in-payload", ["C11"], S + "samplers/smc/base.py",
+     "            \"history\": history_copy,", "            \"history\": SMCHistory(beta=list(self.history.beta)),"),
+    ("c11-history-shallow-copy", ["C11", "C18", "C08"], S + "samplers/smc/base.py",
+     "        history_copy = copy.deepcopy(self.history)", "        history_copy = copy.copy(self.history)"),
+    ("c11-min-step-not-restored", ["C11"], S + "samplers/smc/base.py",
+     "            \"min_step\": getattr(self, \"_min_step\", None),\n", ""),
+    ("c11-resume-file-drops-beta", ["C11"], S + "samplers/smc/base.py",
+     "        if beta is None:\n            beta = state.get(\"beta\", 0.0)", "        if beta is None or beta > 0.9:\n            beta = state.get(\"beta\", 0.0)"),
+    ("c06-n_final-smaller-ignored", ["C06"], S + "samplers/smc/base.py",
+     "        if n_final_samples is not None and len(samples.x) != n_final_samples:\n            logger.info",
+     "        if n_final_samples is not None and len(samples.x) < n_final_samples:\n            logger.info"),
     # ---- C17
     ("c17-minipcn-mutate-order", ["C17"], S + "samplers/smc/minipcn.py",
      "        samples.log_prior = samples.array_to_namespace(self.log_prior(samples))\n        samples.log_likelihood = samples.array_to_namespace(\n            self.log_likelihood(samples)\n        )",
@@ -162,7 +199,7 @@ MUTANTS = [
      "            if isinstance(value, dict):\n                _save_flattened(g, full_key, value)"),
     ("c13-no-scalar-collapse", ["C13"], S + "utils.py",
      "    if isinstance(value, np.generic):\n        # Scalar datasets are read as NumPy scalars\n        return value.item()\n", ""),
-    ("c13-samples-forget-beta", ["C13", "C11"], S + "samples.py",
+    ("c13-samples-forget-beta", ["C13"], S + "samples.py",
      "        dictionary[\"dtype\"] = encode_dtype(self.xp, self.dtype)\n",
      "        dictionary[\"dtype\"] = encode_dtype(self.xp, self.dtype)\n        if dictionary.get(\"beta\") == 0.0:\n            dictionary[\"beta\"] = None\n"),
     ("c13-history-drops-last-population", ["C13"], S + "history.py",
